@@ -228,3 +228,20 @@ where
       | some s' => go n (i + 1) s'
 
 end Rt
+
+/-! builder U: range indexing of slices (`&l[a..b]`, `&l[a..]`, `&l[..b]`: an invalid range is a panic) and
+`dst[a..b].copy_from_slice(src)` (panics unless the range is valid and the lengths agree). -/
+namespace Rt
+
+def slice {α} (l : List α) (a b : Int) : Option (List α) :=
+  if 0 ≤ a ∧ a ≤ b ∧ b ≤ (l.length : Int) then some ((l.drop a.toNat).take (b.toNat - a.toNat)) else none
+
+def sliceFrom {α} (l : List α) (a : Int) : Option (List α) :=
+  if 0 ≤ a ∧ a ≤ (l.length : Int) then some (l.drop a.toNat) else none
+
+def copyFromSlice {α} (dst : List α) (a b : Int) (src : List α) : Option (List α) :=
+  if 0 ≤ a ∧ a ≤ b ∧ b ≤ (dst.length : Int) ∧ (src.length : Int) = b - a then
+    some (dst.take a.toNat ++ src ++ dst.drop b.toNat)
+  else none
+
+end Rt
